@@ -121,3 +121,20 @@ fn init() {
     clear_directive();
     clear_version();
 }
+
+// -----------------------------------------------------------------------------
+// Verification hooks (feature `verif`): observe / configure thread-local parser state.
+
+/// Re-create this thread's packrat storage with the given capacity (`None` = unbounded).
+#[cfg(feature = "verif")]
+pub fn verif_set_memo_capacity(size: Option<usize>) {
+    PACKRAT_STORAGE.with(|storage| {
+        *storage.borrow_mut() = nom_packrat::PackratStorage::new(size);
+    });
+}
+
+/// Depth of the in-directive stack and the keyword-version stack of this thread.
+#[cfg(feature = "verif")]
+pub fn verif_thread_state() -> (usize, Vec<String>) {
+    utils::verif_thread_state()
+}
